@@ -987,6 +987,13 @@ class CallMixin:
             return ite(z3.Select(has, k.z), self.loaded(SV(dt.v, z3.Select(val, k.z)), st), dflt)
         if meth == 'keys' and not args and self.spec:
             return SV(T.Set(dt.k), has)
+        if meth == 'pop' and len(args) == 2 and not self.spec:
+            # d.pop(k, default): remove the key if present; value or default
+            k = coerce(args[0], dt.k)
+            kh = self.eng.k_dhas(dt.k, dt.v)
+            r = ite(z3.Select(has, k.z), self.loaded(SV(dt.v, z3.Select(val, k.z)), st), args[1])
+            st.seth(kh, z3.Store(st.h(kh), d.z, z3.Store(has, k.z, z3.BoolVal(False))))
+            return r
         raise Unsupported('dict.%s (line %s)' % (meth, n.lineno))
 
 
